@@ -424,8 +424,7 @@ def _r13_6(prog: Program, res: Result, ret_units) -> None:
             res.decide(ok, "R13.6", fn.loc(x), fn.fq, short(x, 60),
                        f"read only when {pos} > 0" if ok else
                        f"at {pos} == 0 this reads index -1, the LAST character of the text: the span of a definition at offset 0 can start at -1")
-    if n == 0:
-        raise AnalysisError("R13.6: no `text[pos - 1]` found")
+    # (no instance: the vacuity floor of R13.6 stops the run)
 
 
 def _r13_4(prog: Program, res: Result) -> None:
